@@ -25,6 +25,34 @@ from sc3.seq.patterns.funcpatterns import Pif
 
 INF = float('inf')
 
+# --- record the draws of every seeded generator (Routine.rand_seed = x -> random.Random(x))
+import random as _random
+import sc3.base.stream as _stm
+LOG = []
+
+
+class LogRandom(_random.Random):
+    def __init__(self, x=None):
+        super().__init__(x)
+        self._c13_seed = x
+        self._c13_hist = []
+
+    def randrange(self, start, stop=None, step=1):
+        r = super().randrange(start, stop, step)
+        LOG.append((self._c13_seed, tuple(self._c13_hist), start, stop, r))
+        self._c13_hist.insert(0, (start, stop))
+        return r
+
+
+class _RandomShim:
+    Random = LogRandom
+
+    def __getattr__(self, name):
+        return getattr(_random, name)
+
+
+_stm.random = _RandomShim()
+
 FUNCS = {
     'inc': lambda x: x + 1,
     'dbl': lambda x: x * 2,
@@ -86,6 +114,15 @@ def build(e):
     if k == 'val':
         return dv(e[1])
     B = build
+    if k in ('Pseq', 'Pser') and not e[1]:
+        # an empty list cannot be constructed; this is a pattern whose list was emptied afterwards
+        p = (Pseq if k == 'Pseq' else Pser)([0], reps(e[2]), e[3])
+        p.lst = []
+        return p
+    if k == 'Place' and not e[1]:
+        p = Place([0], reps(e[2]), e[3])
+        p.lst = []
+        return p
     if k == 'Pseq':
         return Pseq([B(x) for x in e[1]], reps(e[2]), e[3])
     if k == 'Pser':
@@ -203,9 +240,14 @@ def take(nextf, n):
         return [vals, 'err:' + type(e).__name__]
 
 
+def stop_is_none(b):
+    return b is None
+
+
 def run_case(c):
     res = {'iter': None, 'next': None, 'all': None, 'two': None, 'mutated': False, 'again': None}
     n = c['n']
+    del LOG[:]
     signal.setitimer(signal.ITIMER_REAL, c.get('timeout', 2.0))
     try:
         try:
@@ -251,6 +293,17 @@ def run_case(c):
         res['timeout'] = True
     finally:
         signal.setitimer(signal.ITIMER_REAL, 0)
+    draws, bad = {}, False
+    for seed, hist, a, b, r in LOG:
+        if type(seed) is not int or stop_is_none(b):
+            bad = True
+            continue
+        key = (seed, hist, a, b)
+        if key in draws and draws[key] != r:
+            bad = True            # the same generator history gave two different results
+        draws[key] = r
+    res['draws'] = [[s, [list(x) for x in h], a, b, r] for (s, h, a, b), r in draws.items()]
+    res['draws_inconsistent'] = bad
     return res
 
 
@@ -271,7 +324,14 @@ def main():
             out.append(r)
         except Exception as e:
             out.append({'harness_error': type(e).__name__ + ': ' + str(e)[:200]})
-    json.dump({'out': out}, open(sys.argv[2], 'w'))
+    ctor = {}
+    for cls, args in ((Pseq, ()), (Pser, ()), (Place, ()), (Ptuple, ()), (Pslide, ()), (Prand, ()), (Pxrand, ())):
+        try:
+            cls([], *args)
+            ctor[cls.__name__] = 'accepted'
+        except Exception as e:
+            ctor[cls.__name__] = type(e).__name__
+    json.dump({'out': out, 'ctor_empty': ctor}, open(sys.argv[2], 'w'))
 
 
 main()
